@@ -26,6 +26,9 @@ use crate::interpreter::screen::{CrossTermScreen, Screen};
 use crate::interpreter::write_printer::WritePrinter;
 use crate::{RuntimeError, RuntimeErrorPos, WithStacktrace};
 
+/// The largest number of function/sub calls that can be active at the same time.
+const MAX_CALL_DEPTH: usize = 10_000;
+
 pub struct Interpreter<TStdlib: Stdlib, TStdIn: Input, TStdOut: Printer, TLpt1: Printer> {
     /// Offers system calls
     stdlib: TStdlib,
@@ -490,6 +493,10 @@ impl<TStdlib: Stdlib, TStdIn: Input, TStdOut: Printer, TLpt1: Printer>
                 ctx.halt = true;
             }
             Instruction::PushRet(address) => {
+                if self.return_address_stack.len() >= MAX_CALL_DEPTH {
+                    // a recursion that does not end would otherwise exhaust the memory of the process
+                    return Err(RuntimeError::OutOfStackSpace).with_err_at(&pos);
+                }
                 self.return_address_stack.push(*address);
                 self.go_sub_bases.push(self.go_sub_address_stack.len());
                 // the function/sub that is being called gets its own statement snapshot
